@@ -143,8 +143,8 @@ MQubitCarry == Perm(16, LAMBDA i : LET a == (i \div 8) % 2 b == (i \div 4) % 2 c
                     8*a + 4*b + 2*((b+c) % 2) + ((d + b*c + ((b+c)%2)*a) % 2))
 
 \* number of target wires of a record: its wires minus the control wires added by ctrl modifiers
-NCtrl(r) == LET S[i \in 0..Len(r.mods)] == IF i = 0 THEN 0 ELSE S[i-1] + (IF r.mods[i].t = "ctrl" THEN Len(r.mods[i].cv) ELSE 0) IN S[Len(r.mods)]
-NT(r) == Len(r.w) - NCtrl(r)
+GNumCtrl(r) == LET S[i \in 0..Len(r.mods)] == IF i = 0 THEN 0 ELSE S[i-1] + (IF r.mods[i].t = "ctrl" THEN Len(r.mods[i].cv) ELSE 0) IN S[Len(r.mods)]
+NT(r) == Len(r.w) - GNumCtrl(r)
 GateBase(r) ==
   LET g == r.g  p == r.p IN
   CASE g = "Identity" -> Ident(2^NT(r))
@@ -181,6 +181,81 @@ GateBase(r) ==
     [] g = "QubitSum" -> MQubitSum [] g = "QubitCarry" -> MQubitCarry
     [] g = "PauliWord" -> PauliM(r.x)
     [] g = "MAT" -> MData(r.m)
+
+
+\* ---------------------------------------------------------------- derivative table (for Deriv: C34 C37 C38 C09)
+\* AGen(r) is the matrix A with  dU/dtheta = A * U(theta)  for the one-parameter gate r  (A = -i * generator),
+\* transcribed from the documented generators.  GenClosedForm(r) rebuilds U(theta) from A by the closed form of
+\* the exponential (K^3 = K:  exp(-i t/2 K) = I - K^2 + cos(t/2) K^2 - i sin(t/2) K ;  P^2 = P: exp(i t P) = I - P + e^{it} P),
+\* and GatesSelf checks GenClosedForm(r) = GateM(r) at every lattice angle, so the table is tied to the gate table.
+MP0 == Mx(0, << <<One, O>>, <<O, O>> >>)
+MP1 == Mx(0, << <<O, O>>, <<O, One>> >>)
+MYsub == Mx(0, << <<O,O,O,O>>, <<O,O,mJ,O>>, <<O,J,O,O>>, <<O,O,O,O>> >>)
+MXsub == Mx(0, << <<O,O,O,O>>, <<O,O,One,O>>, <<O,One,O,O>>, <<O,O,O,O>> >>)
+MPsub == Diag(0, <<O, One, One, O>>)
+MPrest == Diag(0, <<One, O, O, One>>)
+MP11 == Diag(0, <<O, O, O, One>>)
+MYsub16 == Mx(0, TLCEval([i \in 1..16 |-> TLCEval([j \in 1..16 |-> IF i = 4 /\ j = 13 THEN mJ ELSE IF i = 13 /\ j = 4 THEN J ELSE O])]))
+MPrest16 == Diag(0, [i \in 1..16 |-> IF i = 4 \/ i = 13 THEN O ELSE One])
+MNeg(a) == MScale(mOne, a)
+AllZ(n) == [i \in 1..n |-> 3]
+\* the "K" of half-angle gates ( U = exp(-i theta/2 K) ) and the "P" of phase gates ( U = exp(i theta P) )
+GenKind(r) == IF r.g \in {"PhaseShift", "U1", "ControlledPhaseShift", "CPhase", "CPhaseShift00", "CPhaseShift01", "CPhaseShift10"} THEN "proj"
+              ELSE IF r.g = "PSWAP" THEN "pswap"
+              ELSE IF r.g = "GlobalPhase" THEN "gphase" ELSE IF r.g = "FermionicSWAP" THEN "fswap" ELSE "half"
+GenK(r) ==
+  LET g == r.g IN
+  CASE g = "RX" -> MX [] g = "RY" -> MY [] g = "RZ" -> MZ
+    [] g = "IsingXX" -> Kron(MX, MX) [] g = "IsingYY" -> Kron(MY, MY) [] g = "IsingZZ" -> Kron(MZ, MZ)
+    [] g = "MultiRZ" -> PauliM(AllZ(NT(r))) [] g = "PauliRot" -> PauliM(r.x)
+    [] g = "CRX" -> Kron(MP1, MX) [] g = "CRY" -> Kron(MP1, MY) [] g = "CRZ" -> Kron(MP1, MZ)
+    [] g = "SingleExcitation" -> MYsub
+    [] g = "SingleExcitationPlus" -> MAdd(MYsub, MNeg(MPrest))
+    [] g = "SingleExcitationMinus" -> MAdd(MYsub, MPrest)
+    [] g = "DoubleExcitation" -> MYsub16
+    [] g = "DoubleExcitationPlus" -> MAdd(MYsub16, MNeg(MPrest16))
+    [] g = "DoubleExcitationMinus" -> MAdd(MYsub16, MPrest16)
+    [] g = "IsingXY" -> MNeg(MXsub)
+    [] g \in {"PhaseShift", "U1"} -> MP1
+    [] g \in {"ControlledPhaseShift", "CPhase"} -> MP11
+    [] g = "CPhaseShift00" -> Diag(0, <<One, O, O, O>>)
+    [] g = "CPhaseShift01" -> Diag(0, <<O, One, O, O>>)
+    [] g = "CPhaseShift10" -> Diag(0, <<O, O, One, O>>)
+    [] g = "PSWAP" -> MPsub
+HasGen(r) == r.g \in {"RX","RY","RZ","IsingXX","IsingYY","IsingZZ","MultiRZ","PauliRot","CRX","CRY","CRZ","SingleExcitation",
+   "SingleExcitationPlus","SingleExcitationMinus","DoubleExcitation","DoubleExcitationPlus","DoubleExcitationMinus","IsingXY",
+   "PhaseShift","U1","ControlledPhaseShift","CPhase","CPhaseShift00","CPhaseShift01","CPhaseShift10","PSWAP","GlobalPhase","FermionicSWAP"}
+\* A for the unmodified gate
+ABase(r) ==
+  LET kind == GenKind(r) IN
+  CASE kind = "half" -> LET K == GenK(r) IN Mx(K.k + 1, TLCEval([i \in 1..Len(K.e) |-> TLCEval([j \in 1..Len(K.e) |-> Mul(mJ, K.e[i][j])])]))
+    [] kind \in {"proj", "pswap"} -> MScale(J, GenK(r))
+    [] kind = "gphase" -> MScale(mJ, Ident(2^NT(r)))
+    [] kind = "fswap" -> Mx(1, (MAdd(MScale(J, MAdd(MPsub, MNeg(MXsub))), MScale(Scale(2, J), MP11))).e)
+\* block embedding for ctrl: A_ctrl = P_sel (x) A  (zero elsewhere)
+CtrlA(a, cv) ==
+  LET nc == Len(cv)  d == Len(a.e)  DD == (2^nc) * d
+      sel == LET S[t \in 0..nc] == IF t = 0 THEN 0 ELSE 2*S[t-1] + cv[t] IN S[nc] IN
+  Mx(a.k, TLCEval([i \in 1..DD |-> TLCEval([j \in 1..DD |->
+        IF (i-1) \div d = sel /\ (j-1) \div d = sel THEN a.e[((i-1) % d) + 1][((j-1) % d) + 1] ELSE O])]))
+RECURSIVE AMods(_, _, _)
+AMods(a, mods, i) == IF i > Len(mods) THEN a ELSE
+  LET md == mods[i] IN
+  AMods(CASE md.t = "adj" -> MNeg(a) [] md.t = "pow" -> MScale(Int2C(md.z), a) [] md.t = "ctrl" -> CtrlA(a, md.cv), mods, i + 1)
+AGen(r) == AMods(ABase(r), r.mods, 1)
+\* closed-form exponential from the table (unmodified gate), angle a
+GenClosedForm(r) ==
+  LET a == r.p[1]  kind == GenKind(r) IN
+  CASE kind = "half" -> LET K == GenK(r)  K2 == MatMul(K, K)  Id == Ident(Len(K.e)) IN
+         MAdd(MAdd(Id, MNeg(K2)), Mx(1, (MAdd(MScale(c2(a), K2), MScale(mis2(a), K))).e))
+    [] kind = "proj" -> LET Pp == GenK(r) IN MAdd(MAdd(Ident(Len(Pp.e)), MNeg(Pp)), MScale(P(a), Pp))
+    [] kind = "pswap" -> LET Pp == GenK(r) IN MatMul(MAdd(MAdd(Ident(4), MNeg(Pp)), MScale(P(a), Pp)), MSWAP)   \* PSWAP(0) = SWAP
+    [] kind = "gphase" -> MGlobalPhase(a, NT(r))
+    [] kind = "fswap" -> LET Id == Ident(4)
+                             U1_ == MAdd(MAdd(Id, MNeg(MPsub)), Mx(1, (MAdd(MScale(c2(a), MPsub), MScale(mis2(a), MXsub))).e))
+                             U2_ == MAdd(MAdd(Id, MNeg(MPsub)), MScale(E(a), MPsub))
+                             U3_ == MAdd(MAdd(Id, MNeg(MP11)), MScale(P(a), MP11)) IN
+                         MatMul(MatMul(U1_, U2_), U3_)
 
 RECURSIVE ApplyMods(_, _, _)
 ApplyMods(mat, mods, i) ==
